@@ -221,7 +221,26 @@ def run_property(prop, subs, tier, assumptions):
         "violations": violations,
     }
     os.makedirs(os.path.join(VERIF, "evidence"), exist_ok=True)
-    json.dump(ev, open(os.path.join(VERIF, "evidence", prop + ".json"), "w"), indent=1, default=str)
+    path = os.path.join(VERIF, "evidence", prop + ".json")
+    # second pass of the same property (the extension module compiled with debug assertions and arithmetic overflow
+    # checks, as `cargo test` / `maturin develop` without --release build it): added to the first pass's evidence
+    if os.environ.get("LMCHECK_SECOND_PASS"):
+        try:
+            first = json.load(open(path))
+        except Exception:
+            first = None
+        if first is not None:
+            first["coverage"]["evaluations"] = first["coverage"].get("evaluations", 0) + ev["coverage"]["evaluations"]
+            first["coverage"]["checked_build_pass"] = {
+                "what": "the same sub-checks (a quarter of the examples, same seed) against the extension module compiled with debug assertions and arithmetic overflow checks",
+                "evaluations": ev["coverage"]["evaluations"], "distinct_nontrivial": ev["coverage"]["distinct_nontrivial"],
+                "sub_checks": ev["coverage"]["sub_checks"], "wall_s": ev["wall_s"],
+            }
+            first["coverage"]["rule"] = first["coverage"]["rule"] + " || [checked-build pass] the same sub-checks at a quarter of the examples with debug assertions and overflow checks compiled into the extension module"
+            first["violations"] = first.get("violations", 0) + violations
+            first["wall_s"] = round(first.get("wall_s", 0) + ev["wall_s"], 3)
+            ev = first
+    json.dump(ev, open(path, "w"), indent=1, default=str)
     return 1 if violations else 0
 
 
